@@ -57,6 +57,12 @@ func (k Keeper) BridgeCallHandler(ctx sdk.Context, msg *types.MsgBridgeCallClaim
 			},
 		)
 	}
+	// the tokens were credited to the receiver on the outer context: hand them to the refund address before refunding
+	if refundAddr := msg.GetRefundAddr(); !baseCoins.IsZero() && !bytes.Equal(receiverAddr.Bytes(), refundAddr.Bytes()) {
+		if err = k.bankKeeper.SendCoins(ctx, receiverAddr.Bytes(), refundAddr.Bytes(), baseCoins); err != nil {
+			return err
+		}
+	}
 	return k.BridgeCallFailedRefund(ctx, msg.GetRefundAddr(), baseCoins, msg.EventNonce)
 }
 
